@@ -718,6 +718,13 @@ Matrix Matrix::Inverse() const
 		// Gauss Jordan elimination
 		for(unsigned int i = 0; i < N; i++)
 		{
+			// Partial pivoting: bring the row with the largest entry of column i (among the rows i,...,N-1) to position i.
+			unsigned int pivot = i;
+			for(unsigned int j = i + 1; j < N; j++)
+				if(fabs(A[j][i]) > fabs(A[pivot][i]))
+					pivot = j;
+			if(pivot != i)
+				std::swap(A[i], A[pivot]);
 			if(A[i][i] == 0)
 			{
 				std::cerr << "Error in libphysica::Matrix::Inverse(): Diagonal element is zero." << std::endl;
